@@ -107,7 +107,25 @@ var levels = map[string]string{
 	"C14": "exploration", "C17": "exploration", "C18": "exploration",
 }
 
+// levelOf takes the claimed level from MANIFEST.json so that evidence and manifest cannot diverge.
 func levelOf(prop string) string {
+	if raw, err := os.ReadFile(filepath.Join(verifDir(), "MANIFEST.json")); err == nil {
+		var m struct {
+			Checks []struct {
+				PropertyID   string `json:"property_id"`
+				LevelClaimed struct {
+					Category string `json:"category"`
+				} `json:"level_claimed"`
+			} `json:"checks"`
+		}
+		if json.Unmarshal(raw, &m) == nil {
+			for _, c := range m.Checks {
+				if c.PropertyID == prop && c.LevelClaimed.Category != "" {
+					return c.LevelClaimed.Category
+				}
+			}
+		}
+	}
 	if l, ok := levels[prop]; ok {
 		return l
 	}
